@@ -255,8 +255,19 @@ def run(ctx):
                       "events": [{"f": x["f"], "how": "reference", "lines": x["lines"], "preload": i % 2}]})
     # (i) + (iii) files written by mouette
     reps = 6 if thorough else 2
-    for name, s in _shapes(rng, thorough):
-        for rep in range(reps):
+    shapes = _shapes(rng, thorough)
+    if thorough:
+        # every enumerated oriented complex (<= 5 vertices, <= 4 faces) with a random choice of declared edges, once each
+        r_enum = ctx.model_check("MeshEnum", "MeshEnum.cfg", "all oriented manifold complexes <= 5 vertices, <= 4 faces (input family of the thorough tier)")
+        for j, x in enumerate(y for y in r_enum.records if y.get("k") == "M"):
+            if j % 8 != 0:
+                continue
+            F = [list(f) for f in x["F"]]
+            sides = sorted({(min(f[i], f[(i + 1) % len(f)]), max(f[i], f[(i + 1) % len(f)])) for f in F for i in range(len(f))})
+            E = [list(e) for e in rng.sample(sides, rng.randint(0, min(2, len(sides))))]
+            shapes.append(("enum", {"E": E, "F": F, "C": [], "nv": x["nv"], "once": 1}))
+    for name, s in shapes:
+        for rep in range(1 if s.get("once") else reps):
             V = [[rng.randint(1, len(POOL)) for _ in range(3)] for _ in range(s["nv"])]
             att0 = []
             if rep % 2 == 1:
@@ -266,17 +277,17 @@ def run(ctx):
                     typ = rng.choice(["int", "bool", "float"])
                     gen = [rng.randint(0, 1) for _ in range(5)] if typ == "bool" else ([rng.randint(1, len(POOL)) for _ in range(5)] if typ == "float" else [rng.randint(0, 9) for _ in range(5)])
                     att0.append({"on": on, "name": "a_" + on, "type": typ, "dim": rng.choice([1, 1, 2, 3]), "gen": gen, "dense": rng.randint(0, 1)})
-            cases.append({"id": "self-%s-%d" % (name, rep), "given": {"family": name, "m0": {"V": V, "E": s["E"], "F": s["F"], "C": s["C"]}, "att0": att0},
+            cases.append({"id": "self-%s-%d-%d" % (name, rep, len(cases)), "given": {"family": name, "m0": {"V": V, "E": s["E"], "F": s["F"], "C": s["C"]}, "att0": att0},
                           "events": [{"f": f, "how": "self"} for f in FORMATS]})
             if rep == 0 and (s["F"] or s["C"]) :
                 # the two configuration switches that change a format's edge vocabulary
-                cases.append({"id": "noE-%s" % name, "given": {"family": name + "/edges-not-completed", "cfgE": 0, "m0": {"V": V, "E": s["E"], "F": s["F"], "C": s["C"]}, "att0": []},
+                cases.append({"id": "noE-%s-%d" % (name, len(cases)), "given": {"family": name + "/edges-not-completed", "cfgE": 0, "m0": {"V": V, "E": s["E"], "F": s["F"], "C": s["C"]}, "att0": []},
                               "events": [{"f": f, "how": "self"} for f in ("obj", "mesh", "geogram_ascii")]})
-                cases.append({"id": "noObjE-%s" % name, "given": {"family": name + "/no-edges-in-obj", "objE": 0, "m0": {"V": V, "E": s["E"], "F": s["F"], "C": s["C"]}, "att0": []},
+                cases.append({"id": "noObjE-%s-%d" % (name, len(cases)), "given": {"family": name + "/no-edges-in-obj", "objE": 0, "m0": {"V": V, "E": s["E"], "F": s["F"], "C": s["C"]}, "att0": []},
                               "events": [{"f": "obj", "how": "self"}]})
             if s["F"] and all(len(f) in (3, 4) for f in s["F"]) and rep == 0:
                 Vs = [[rng.randint(1, len(STL_POOL)) for _ in range(3)] for _ in range(s["nv"])]
-                cases.append({"id": "stl-%s-%d" % (name, rep), "given": {"family": name, "stl": 1, "m0": {"V": Vs, "E": s["E"], "F": s["F"], "C": []}},
+                cases.append({"id": "stl-%s-%d-%d" % (name, rep, len(cases)), "given": {"family": name, "stl": 1, "m0": {"V": Vs, "E": s["E"], "F": s["F"], "C": []}},
                               "events": [{"f": "stl", "how": "self"}]})
     obs = ctx.execute("c04", "exec_case", cases, chunksize=4)
     ctx.judge("C04_Trace", "C04_Trace.cfg", [c for c in obs if c["id"].startswith("ref-")], "files-by-independent-writer", "c04", "exec_case", batch_events=80)
